@@ -14,6 +14,10 @@ TRUSTED_BASE = [
 ]
 
 PLAN = {
+    "C09": {
+        "level": "proof",
+        "contracts": ["contracts.tree_value"],
+    },
     "C12": {
         "level": "proof",
         "contracts": ["contracts.parser_cache"],
